@@ -43,8 +43,8 @@ func VerifMacro(args []string) {
 	before := make([]string, len(names))
 	for i, n := range names {
 		m, found := s.macroState.Get(n)
+		vAssert(found, "macro/definition-not-registered")
 		if !found {
-			vReach("macro not defined")
 			return
 		}
 		before[i] = parser.VerifShape(m.(*object.Macro).Body)
